@@ -75,6 +75,7 @@ func runC01(p *Program, r *Report) {
 	c04unmask(p, r, "C01.unmask")
 	c02frag(p, r, "C01.frag")
 	c14side(p, r, "C01.side")
+	c14sideUse(p, r, "C01.side.use")
 	c14server(p, r, "C01.negotiation.server")
 	c14client(p, r, "C01.negotiation.client")
 	sub := newReport(r.Prop, r.Tier)
@@ -827,6 +828,23 @@ func runC18(p *Program, r *Report) {
 			return true, ""
 		})
 	}
+	if f := p.Field("netConn.reader"); f != nil {
+		for _, fa := range p.FieldAccesses(f) {
+			if fa.Write || fa.Addr {
+				fname := p.FuncName(fa.Fn)
+				r.Check("C18.msgend", fname, "store netConn.reader", p.InstrPos(fa.Instr), fname == "netConn.read", "the current message reader is installed and dropped only by netConn.read (dropped only at the message's io.EOF): an error such as an idle deadline leaves a partly read message in place", fname)
+			}
+		}
+	}
+	if fn := p.Func("netConn.SetDeadline"); fn != nil {
+		p.forAllPaths(r, "C18.deadline", fn, "SetDeadline sets both", Opts{}, "SetDeadline(t) calls SetWriteDeadline(t) and SetReadDeadline(t)", func(pa *Path) (bool, string) {
+			w, rd := pa.Calls("netConn.SetWriteDeadline"), pa.Calls("netConn.SetReadDeadline")
+			if len(w) != 1 || len(rd) != 1 || argKey(w[0], 1) != "param:t" || argKey(rd[0], 1) != "param:t" {
+				return false, "does not forward t to both"
+			}
+			return true, ""
+		})
+	}
 	c05guard(p, r, getLockEnv(p), "C18.guard", map[string]bool{"netConn.reader": true, "netConn.readEOFed": true})
 }
 
@@ -910,6 +928,9 @@ func runC19(p *Program, r *Report) {
 			}
 			if len(cl) != 1 || argKey(cl[0], 1) != "1007" {
 				return false, "invalid JSON does not close with 1007"
+			}
+			if reason, ok := avStr(cl[0].Args[2]); !ok || len(reason) > 123 {
+				return false, "the close reason is not a constant of at most 123 bytes (Close sends nothing for a longer reason): " + argKey(cl[0], 2)
 			}
 			for _, e := range pa.Calls("fmt.Errorf") {
 				if e.Res.Key() == pa.Ret[0].Key() {
